@@ -6,7 +6,8 @@
    SVD of svd_qn) -- each theorem names the part of its contract it uses. *)
 From Coq Require Import List Arith ZArith Bool Lia.
 Import ListNotations.
-From RV Require Import Base.CRing Base.BigSum Model.Chain Gen.CanoSched Model.Cano Proofs.CanoProofs.
+From RV Require Import Base.CRing Base.BigSum Model.Chain Gen.CanoSched Model.Cano Proofs.CanoProofs Model.CanoGS Proofs.CanoGSProofs.
+Close Scope Q_scope.
 
 (* ------------------------------------------------------------------------------------------------ *)
 (* the generated bookkeeping code                                                                   *)
@@ -197,6 +198,91 @@ Proof. exact alias_test_vacuous. Qed.
 Print Assumptions C04_variational_alias_vacuous.
 
 (* ------------------------------------------------------------------------------------------------ *)
+(* square-root-free formulation and an executable kernel: Gram-Schmidt without normalisation          *)
+(* ------------------------------------------------------------------------------------------------ *)
+(* "isometry" without square roots: the Gram matrix of the kept factor is DIAGONAL (dec_orth); the weight-1
+   contract dec_iso is the special case D = 1 (it needs square roots: no kernel over Q satisfies it on every
+   matrix, e.g. the column (1,1)) *)
+Theorem C04_iso_is_diag_special_case : forall (R : CRing) (dec : kernel R), dec_iso R dec -> dec_orth R dec.
+Proof. exact dec_iso_orth. Qed.
+Print Assumptions C04_iso_is_diag_special_case.
+
+Theorem C04_cano_isometry_diag : forall (R : CRing) (dec : kernel R), dec_orth R dec ->
+  forall ds (m m' : mp R) stop, wf R ds m -> entry_ok (m_st m) -> stop_ok (m_st m) stop ->
+  canonicalise_mp R dec ds m stop = Some m' ->
+  if to_right (m_st m)
+  then prefixP R (left_iso_D R) (Z.to_nat (target (m_st m) stop)) 1 ds (m_chain m')
+  else afterP R (right_iso_D R) (Z.to_nat (target (m_st m) stop)) 1 ds (m_chain m').
+Proof. exact cano_isometry_diag. Qed.
+Print Assumptions C04_cano_isometry_diag.
+
+(* Gram-Schmidt without roots over ANY field with involution and definite Hermitian form (CField: Q, Q[i], R, C)
+   is a decomposition kernel: M = U.V, k <= min(rows, cols), U^dagger U diagonal (right-moving) resp.
+   V V^dagger diagonal (left-moving) -- for EVERY matrix, nothing assumed *)
+Theorem C04_gs_kernel_contract : forall F : CField,
+  dec_factor F (gs_kernel F) /\ dec_bound F (gs_kernel F) /\ dec_orth F (gs_kernel F).
+Proof. exact (fun F => conj (gs_kernel_factor F) (conj (gs_kernel_bound F) (gs_kernel_orth F))). Qed.
+Print Assumptions C04_gs_kernel_contract.
+(* the weights are the squared norms of the Gram-Schmidt vectors; one vanishes exactly when its vector does
+   (a linearly dependent input column) *)
+Theorem C04_gs_weight_zero : forall (F : CField) rows A b,
+  dn F rows A b = r0 F <-> (forall i, i < rows -> Qn F rows A b i = r0 F).
+Proof. exact gs_weight_zero. Qed.
+Print Assumptions C04_gs_weight_zero.
+
+(* unconditional versions: canonicalisation with this executable kernel *)
+Theorem C04_gs_cano_dense : forall (F : CField) ds (m : mp F) stop, entry_ok (m_st m) -> stop_ok (m_st m) stop ->
+  exists m', canonicalise_mp F (gs_kernel F) ds m stop = Some m' /\ m_coeff m' = m_coeff m /\
+             (forall s, cfg_ok ds s -> amp (m_chain m') s = amp (m_chain m) s) /\
+             m_st m' = final_st (m_st m) stop.
+Proof. exact gs_cano_dense. Qed.
+Print Assumptions C04_gs_cano_dense.
+Theorem C04_gs_cano_isometry_diag : forall (F : CField) ds (m m' : mp F) stop,
+  wf F ds m -> entry_ok (m_st m) -> stop_ok (m_st m) stop ->
+  canonicalise_mp F (gs_kernel F) ds m stop = Some m' ->
+  if to_right (m_st m)
+  then prefixP F (left_iso_D F) (Z.to_nat (target (m_st m) stop)) 1 ds (m_chain m')
+  else afterP F (right_iso_D F) (Z.to_nat (target (m_st m) stop)) 1 ds (m_chain m').
+Proof. exact gs_cano_isometry_diag. Qed.
+Print Assumptions C04_gs_cano_isometry_diag.
+Theorem C04_gs_dims_monotone : forall (F : CField) ds (m m' : mp F) stop,
+  canonicalise_mp F (gs_kernel F) ds m stop = Some m' -> Forall2 le (dims F (m_chain m')) (dims F (m_chain m)).
+Proof. exact gs_dims_monotone. Qed.
+Print Assumptions C04_gs_dims_monotone.
+Theorem C04_gs_two_sweeps_exact : forall (F : CField) ds (m m1 m2 : mp F),
+  wf F ds m -> lastdim 1 (m_chain m) = 1 -> entry_ok (m_st m) ->
+  canonicalise_mp F (gs_kernel F) ds m None = Some m1 -> canonicalise_mp F (gs_kernel F) ds m1 None = Some m2 ->
+  forall j, S j < length ds ->
+    nth j (dims F (m_chain m2)) 0 <= Nat.min (prod (firstn (S j) ds)) (prod (skipn (S j) ds)).
+Proof. exact gs_two_sweeps_exact. Qed.
+Print Assumptions C04_gs_two_sweeps_exact.
+
+(* ------------------------------------------------------------------------------------------------ *)
+(* quantum-number labels                                                                            *)
+(* ------------------------------------------------------------------------------------------------ *)
+(* labels in any type with an associative addition and decidable equality (Z, Z^k); [ldec] any labelled kernel
+   meeting the block contract of svd_qn (ldec_ok): the push step stores the reported labels on the moved bond
+   (self.qn[idx+1] = qnlset / self.qn[idx] = qnrset).  If the labels are valid for the chain with the centre at
+   qnidx before canonicalise (left sites: ql+sigma = qr; centre: ql+sigma+qr = qntot; right sites: sigma+qr = ql;
+   "label mismatch => entry is zero"), they are valid with the centre where the generated code leaves qnidx. *)
+Theorem C04_cano_preserves_qn_valid : forall (R : CRing) (L : Type) (ladd : L -> L -> L),
+  (forall x y z, ladd (ladd x y) z = ladd x (ladd y z)) -> (forall x y : L, x = y \/ x <> y) ->
+  forall (tot : L) (ldec : lkernel R L), ldec_ok R L ladd tot ldec ->
+  forall s stop ql ds sgs lts tr s',
+  length ds = length lts -> length sgs = length lts -> Z.of_nat (length lts) = site_num s ->
+  entry_ok s -> stop_ok s stop ->
+  canonicalise s stop = Some (tr, s') ->
+  qn_valid R L ladd (Z.to_nat (qnidx s)) tot 1 ql ds sgs lts ->
+  qn_valid R L ladd (Z.to_nat (qnidx s')) tot 1 ql ds sgs (lsweep R L ladd ldec (to_right s) ql ds sgs tr lts).
+Proof. exact cano_preserves_qn_valid. Qed.
+Print Assumptions C04_cano_preserves_qn_valid.
+(* compress: keeping fewer columns (and their labels) keeps the block contract *)
+Theorem C04_trunc_keeps_block_contract : forall (R : CRing) (L : Type) ladd tot mt (ldec : lkernel R L),
+  ldec_ok R L ladd tot ldec -> ldec_ok R L ladd tot (ltrunc R L mt ldec).
+Proof. exact ltrunc_ok. Qed.
+Print Assumptions C04_trunc_keeps_block_contract.
+
+(* ------------------------------------------------------------------------------------------------ *)
 (* non-vacuity                                                                                      *)
 (* ------------------------------------------------------------------------------------------------ *)
 (* A concrete kernel over Z: M = I.M when rows <= cols, M = M.I otherwise.  It meets dec_factor and
@@ -247,3 +333,29 @@ Example C04_example_empty_sweep :
   canonicalise {| site_num := 1; qnidx := 0; to_right := true |} None
     = Some ([], {| site_num := 1; qnidx := 0; to_right := false |}).
 Proof. split; reflexivity. Qed.
+
+(* ---- second part: executable field, executable kernel ---- *)
+(* the rationals are a CField; Gram-Schmidt over Q run on the same three-site state (left-moving sweep):
+   bond dimensions, Gram matrices (T T^dagger, entries as numerator/denominator) of the two sites right of the
+   centre -- diagonal, the rank-deficient bond of dimension 3 shows one zero weight -- and the unchanged amplitude *)
+Definition qt (k : Z) : T3 QcRing := fun l p r => qz (k + Z.of_nat l * 3 - Z.of_nat p + 2 * Z.of_nat r * Z.of_nat (l + p))%Z.
+Definition q_mp : mp QcRing :=
+  {| m_chain := [(3, qt 1); (2, qt (-2)); (1, qt 3)]; m_coeff := qz 5;
+     m_st := {| site_num := 3; qnidx := 2; to_right := false |} |}.
+Example C04_gs_example_runs :
+  match canonicalise_mp QcRing (gs_kernel QcField) [2; 2; 2] q_mp None with
+  | Some m' => (dims QcRing (m_chain m'),
+                match m_chain m' with [_; (_, t1); (_, t2)] => (gram_right 3 2 2 t1, gram_right 2 2 1 t2) | _ => ([], []) end,
+                qpair (amp (m_chain m') [1; 0; 1]), qpair (amp (m_chain q_mp) [1; 0; 1]))
+  | None => ([], ([], []), (0, 0), (0, 0))%Z
+  end =
+  ([3; 2; 1]%nat,
+   ([[(12058, 169); (0, 1); (0, 1)]; [(0, 1); (10800210, 1018901); (0, 1)]; [(0, 1); (0, 1); (0, 1)]],
+    [[(13, 1); (0, 1)]; [(0, 1); (9, 13)]])%Z,
+   (226, 1)%Z, (226, 1)%Z).
+Proof. vm_compute. reflexivity. Qed.
+Example C04_gs_example_hyps : wf QcRing [2; 2; 2] q_mp /\ entry_ok (m_st q_mp) /\ stop_ok (m_st q_mp) None.
+Proof. repeat split; cbn; lia. Qed.
+(* the block contract is inhabited (integer labels, masked identity kernel) *)
+Example C04_label_contract_inhabited : forall tot, ldec_ok ZRing Z Z.add tot (mask_kernel tot).
+Proof. exact mask_kernel_ok. Qed.
